@@ -246,9 +246,17 @@ def run_case(ctx, case):
             if bad.any():
                 b = int(torch.nonzero(bad)[0])
                 ctx.violation(dict(sig_base, law="sample_positive"), "sampling returned an action of zero probability / masked", dict(row=b, logprobs=lp[b], sel=int(sel[b])))
-        dec = D.decode_logprobs(lp, mask, "greedy")
-        if (lp.gather(1, dec[:, None]).squeeze(1) < lp.max(-1).values).any():
-            ctx.violation(dict(sig_base, law="greedy_argmax"), "decode_logprobs(greedy) not a maximiser", None)
+        # the helper PointerNetwork / MatNet / MDAM / EAS decoders call, with every documented decode-type name
+        for dt in ("greedy", "multistart_greedy"):
+            dec = D.decode_logprobs(lp, mask, dt)
+            ctx.count("decode_logprobs_calls")
+            if (lp.gather(1, dec[:, None]).squeeze(1) < lp.max(-1).values).any():
+                ctx.violation(dict(sig_base, law="greedy_argmax", via="decode_logprobs", decode_type=dt), f"decode_logprobs({dt}) did not return a maximiser", None)
+        for dt in ("sampling", "multistart_sampling"):
+            dec = D.decode_logprobs(lp, mask, dt)
+            ctx.count("decode_logprobs_calls")
+            if (~mask.gather(1, dec[:, None]).squeeze(1)).any() or (lp.gather(1, dec[:, None]).squeeze(1) == float("-inf")).any():
+                ctx.violation(dict(sig_base, law="sample_positive", via="decode_logprobs", decode_type=dt), f"decode_logprobs({dt}) returned a masked / zero-probability action", None)
 
         # ---- through the Strategy objects (what policies use) --------------------------------
         for name in ("greedy", "sampling"):
